@@ -759,9 +759,6 @@ package main
 //@ func sliceToGo
 //@   trusted
 //@   panics may
-//@ func tupleToGo
-//@   trusted
-//@   panics may
 //@ func lambdaToGo
 //@   trusted
 //@   panics may
@@ -769,9 +766,6 @@ package main
 //@   trusted
 //@   panics may
 //@ func reToGo
-//@   trusted
-//@   panics may
-//@ func fcToGo
 //@   trusted
 //@   panics may
 //@ func lbToGo
@@ -786,3 +780,188 @@ package main
 //@   ensures int-literal: is(Expr_EIntImm, expr) ==> result == fmtverb("d", Expr_EIntImm_Value(expr))
 //@   ensures unit: is(Expr_EUnit, expr) ==> result == ""
 //@   ensures sinterp: is(Expr_ESInterP, expr) ==> prefixof("frt.SInterP(\"", result) && suffixof(")", result)
+
+// ---------------------------------------------------------------------------------------------
+// C03: declarations and calls follow the documented Go representation (docs/specs/union.md, note.md,
+// tutorial 4).  Each emitter equals its documented template; go_type is the C15 type mapping.
+// ---------------------------------------------------------------------------------------------
+
+//@ func unionCSName
+//@   props C03
+//@   panics never
+//@   returns unionName + "_" + caseName
+
+//@ func csConstructorName
+//@   props C03
+//@   panics never
+//@   returns "New_" + unionName + "_" + cas.Name
+
+// a case constructor is a package variable exactly when the case has no payload and the union no type parameter
+//@ func csIsVar
+//@   props C03
+//@   panics never
+//@   returns cas.Ftype == New_FType_FUnit && len(tparams) == 0
+
+//@ func pany
+//@   props C03
+//@   panics never
+//@   returns s + " any"
+
+//@ func writeTParamsIfAny
+//@   props C03
+//@   modifies bufs
+//@   ghost M []string
+//@   panics never
+//@   ensures appended: buf(b) == old(buf(b)) + tparams_decl(M, len(tparams))
+//@   ensures mapped: forall k int :: 0 <= k && k < len(tparams) ==> M[k] == tparams[k] + " any"
+//@   ensures others: bufsframe_except(b)
+//@   at after call slice.Map#0: M = ret
+
+//@ func toStringTParamsIfAny
+//@   props C03
+//@   panics never
+//@   returns targs_list(tparams)
+
+//@ func csConstructVar
+//@   props C03
+//@   panics never
+//@   returns "var New_" + uname + "_" + cas.Name + " " + uname + " = " + uname + "_" + cas.Name + "{}\n"
+
+//@ func csConstructFunc
+//@   props C03
+//@   ghost M []string
+//@   panics may
+//@   ensures text: result == "func New_" + uname + "_" + cas.Name + tparams_decl(M, len(tparams)) + "(" + ite(cas.Ftype == New_FType_FUnit, "", "v " + go_type(cas.Ftype)) + ") " + uname + targs_list(tparams) + " { return " + uname + "_" + cas.Name + targs_list(tparams) + "{" + ite(cas.Ftype == New_FType_FUnit, "", "v") + "} }\n"
+//@   ensures mapped: forall k int :: 0 <= k && k < len(tparams) ==> M[k] == tparams[k] + " any"
+//@   at after call writeTParamsIfAny#0: M = c_M
+
+//@ func csConstruct
+//@   props C03
+//@   ghost M []string
+//@   panics may
+//@   ensures var-form: cas.Ftype == New_FType_FUnit && len(tparams) == 0 ==> result == "var New_" + uname + "_" + cas.Name + " " + uname + " = " + uname + "_" + cas.Name + "{}\n"
+//@   ensures func-form: !(cas.Ftype == New_FType_FUnit && len(tparams) == 0) ==> result == "func New_" + uname + "_" + cas.Name + tparams_decl(M, len(tparams)) + "(" + ite(cas.Ftype == New_FType_FUnit, "", "v " + go_type(cas.Ftype)) + ") " + uname + targs_list(tparams) + " { return " + uname + "_" + cas.Name + targs_list(tparams) + "{" + ite(cas.Ftype == New_FType_FUnit, "", "v") + "} }\n"
+//@   ensures mapped: forall k int :: 0 <= k && k < len(tparams) ==> M[k] == tparams[k] + " any"
+//@   at after call csConstructFunc#0: M = c_M
+
+// struct U_C whose payload is the field Value
+//@ func udCSDef
+//@   props C03
+//@   ghost M []string
+//@   panics may
+//@   ensures text: result == "type " + ud.Name + "_" + cas.Name + tparams_decl(M, len(ud.Tparams)) + " struct {\n" + ite(cas.Ftype == New_FType_FUnit, "", "  Value " + go_type(cas.Ftype) + "\n") + "}\n"
+//@   ensures mapped: forall k int :: 0 <= k && k < len(ud.Tparams) ==> M[k] == ud.Tparams[k] + " any"
+//@   at after call writeTParamsIfAny#0: M = c_M
+
+// interface U with the marker method U_Union()
+//@ func udUnionDef
+//@   props C03
+//@   ghost M []string
+//@   panics never
+//@   ensures text: result == "type " + ud.Name + tparams_decl(M, len(ud.Tparams)) + " interface {\n  " + ud.Name + "_Union()\n}\n"
+//@   ensures mapped: forall k int :: 0 <= k && k < len(ud.Tparams) ==> M[k] == ud.Tparams[k] + " any"
+//@   at after call writeTParamsIfAny#0: M = c_M
+
+// a record is a struct with the same field names and mapped field types, in order
+//@ func rdffieldToGo
+//@   props C03
+//@   panics may
+//@   returns "  " + field.Name + " " + go_type(field.Ftype)
+
+//@ func rdfToGo
+//@   props C03
+//@   ghost M []string
+//@   ghost F []string
+//@   panics may
+//@   ensures text: result == "type " + rdf.Name + tparams_decl(M, len(rdf.Tparams)) + " struct {\n" + join_prefix(F, "\n", len(rdf.Fields)) + "\n}"
+//@   ensures fields: forall k int :: 0 <= k && k < len(rdf.Fields) ==> F[k] == "  " + rdf.Fields[k].Name + " " + go_type(rdf.Fields[k].Ftype)
+//@   ensures mapped: forall k int :: 0 <= k && k < len(rdf.Tparams) ==> M[k] == rdf.Tparams[k] + " any"
+//@   at after call writeTParamsIfAny#0: M = c_M
+//@   at after call slice.Map#0: F = ret
+
+// parameters in order: "name type"
+//@ func paramsToGo
+//@   props C03
+//@   panics may
+//@   returns pm.Name + " " + go_type(pm.Ftype)
+
+//@ func lfdParamsToGo
+//@   props C03
+//@   ghost P []string
+//@   panics may
+//@   ensures text: result == join_prefix(P, ", ", len(lfd.Params))
+//@   ensures params: forall k int :: 0 <= k && k < len(lfd.Params) ==> P[k] == lfd.Params[k].Name + " " + go_type(lfd.Params[k].Ftype)
+//@   at after call slice.Map#0: P = ret
+
+//@ func blockToType
+//@   trusted
+//@   panics may
+//@   returns block_type(b)
+//@   note abstract: the result type of a block (inference context)
+
+// a top-level let with parameters is a package func: name, type parameters, parameters in order, result type
+//@ func rfdToGo
+//@   props C03
+//@   ghost M []string
+//@   ghost P []string
+//@   panics may
+//@   ensures text: result == "func " + rfd.Lfd.Fvar.Name + tparams_decl(M, len(rfd.Tparams)) + "(" + join_prefix(P, ", ", len(rfd.Lfd.Params)) + ") " + go_type(block_type(rfd.Lfd.Body)) + "{\n" + bToGoRet(rfd.Lfd.Body) + "\n}"
+//@   ensures params: forall k int :: 0 <= k && k < len(rfd.Lfd.Params) ==> P[k] == rfd.Lfd.Params[k].Name + " " + go_type(rfd.Lfd.Params[k].Ftype)
+//@   ensures mapped: forall k int :: 0 <= k && k < len(rfd.Tparams) ==> M[k] == rfd.Tparams[k] + " any"
+//@   at after call writeTParamsIfAny#0: M = c_M
+//@   at after call lfdParamsToGo#0: P = c_P
+
+// a top-level let without parameters is a package var
+//@ func rootVarDefToGo
+//@   props C03
+//@   panics never
+//@   returns "var " + rvd.Vdef.Lvar.Name + " = " + eToGo(rvd.Vdef.Rhs)
+
+// package_info names: package-qualified unless the package is _
+//@ func piFullName
+//@   props C03 C15
+//@   panics never
+//@   returns ite(pi.Name == "_", name, pi.Name + "." + name)
+
+// an external type is registered under its qualified name
+//@ func piRegEType
+//@   props C03 C15
+//@   modifies maps
+//@   panics iff pi.TypeInfo.Fdict == 0
+//@   ensures name: result.Name == ite(pi.Name == "_", tname, pi.Name + "." + tname) && result.Tparams == tparams
+//@   ensures registered: has(pi.TypeInfo.Fdict, tname) && pi.TypeInfo.Fdict[tname] == result
+
+// a reference: the declared name, with explicit type arguments if given
+//@ func varRefToGo
+//@   props C03
+//@   ghost M []string
+//@   panics may
+//@   ensures plain: is(VarRef_VRVar, vr) ==> result == VarRef_VRVar_Value(vr).Name
+//@   ensures explicit: is(VarRef_VRSVar, vr) ==> result == VarRef_VRSVar_Value(vr).Var.Name + ite(len(VarRef_VRSVar_Value(vr).SpecList) == 0, "", "[" + join_prefix(M, ", ", len(VarRef_VRSVar_Value(vr).SpecList)) + "]")
+//@   ensures mapped: is(VarRef_VRSVar, vr) ==> (forall k int :: 0 <= k && k < len(VarRef_VRSVar_Value(vr).SpecList) ==> M[k] == tGo(VarRef_VRSVar_Value(vr).SpecList[k]))
+//@   at after call tArgsToGo#0: M = c_M
+
+//@ func fcUnitArgOnly
+//@   props C03
+//@   panics never
+//@   returns len(fc.Args) == 1 && fc.Args[0] == New_Expr_EUnit
+
+// a full application: the callee's name, all arguments in source order; a lone unit argument is dropped
+//@ func fcFullApplyGo
+//@   props C03
+//@   ghost N string               -- the emitted callee reference
+//@   ghost A []string             -- the emitted arguments
+//@   panics may
+//@   ensures text: result == N + "(" + ite(len(fc.Args) == 1 && fc.Args[0] == New_Expr_EUnit, "", join_prefix(A, ", ", len(fc.Args))) + ")"
+//@   ensures args: !(len(fc.Args) == 1 && fc.Args[0] == New_Expr_EUnit) ==> (forall k int :: 0 <= k && k < len(fc.Args) ==> A[k] == eGo(fc.Args[k]))
+//@   at after call varRefToGo#0: N = ret
+//@   at after call slice.Map#0: A = ret
+
+// tuples are frt.NewTupleN(...)
+//@ func tupleToGo
+//@   props C03
+//@   ghost A []string
+//@   panics never
+//@   ensures text: result == "frt.NewTuple" + fmtverb("d", len(exprs)) + "(" + join_prefix(A, ", ", len(exprs)) + ")"
+//@   ensures args: forall k int :: 0 <= k && k < len(exprs) ==> A[k] == eGo(exprs[k])
+//@   at after call slice.Map#0: A = ret
